@@ -1,3 +1,9 @@
-//! Shared pieces of the two simulators: the seed-stream PRNG (DESIGN 2.3).
+//! Shared pieces of the two simulators: the seed-stream PRNG (DESIGN 2.3), the scenario model and
+//! generator, the simulated engine and the translator seam.
+pub mod engine;
+pub mod gen;
+pub mod query;
 pub mod rng;
+pub mod scenario;
+pub mod translator;
 pub use rng::Rng;
